@@ -368,13 +368,6 @@ static bool types_match(Type t1, Type t2) {
         return true;
     }
     
-    /* Function types match with int when checking function-typed parameters */
-    /* This is a temporary workaround - function-typed parameters return TYPE_INT as placeholder */
-    if ((t1 == TYPE_FUNCTION && t2 == TYPE_INT) ||
-        (t1 == TYPE_INT && t2 == TYPE_FUNCTION)) {
-        return true;  /* Allow for now - runtime will handle */
-    }
-    
     /* Enums match with int (enums are represented as integers in C) */
     if ((t1 == TYPE_ENUM && t2 == TYPE_INT) ||
         (t1 == TYPE_INT && t2 == TYPE_ENUM)) {
@@ -3784,7 +3777,14 @@ static Type check_statement_impl(TypeChecker *tc, ASTNode *stmt) {
                         env_define_var(tc->env, stmt->as.function.params[p].name,
                                       stmt->as.function.params[p].type, true, dummy_val);
                     }
+                    /* 'return' inside the nested function is checked against ITS return type */
+                    Type saved_ret = tc->current_function_return_type;
+                    const char *saved_ret_struct = tc->current_function_return_struct_name;
+                    tc->current_function_return_type = stmt->as.function.return_type;
+                    tc->current_function_return_struct_name = stmt->as.function.return_struct_type_name;
                     check_statement(tc, stmt->as.function.body);
+                    tc->current_function_return_type = saved_ret;
+                    tc->current_function_return_struct_name = saved_ret_struct;
                 }
             }
             return TYPE_VOID;
